@@ -304,7 +304,7 @@ package filtering
 //@   callsite slices.SortFunc(x, cmp) requires documented-order: cmp == funcval("(*LegacyRewrite).Compare")
 //@   ensures matched-def: matched <==> (exists k int :: 0 <= k && k < len(entries) && hostMatches(entries[k], host))
 //@   ensures members: forall i int :: {mark(i)} 0 <= i && i < len(rewrites) ==> (exists k int :: 0 <= k && k < len(entries) && rewrites[i] == entries[k] && hostMatches(entries[k], host) && typeMatches(entries[k], qtype))
-//@   ensures some: len(rewrites) > 0 ==> matched && (exists k int :: 0 <= k && k < len(entries) && hostMatches(entries[k], host) && typeMatches(entries[k], qtype))
+//@   ensures some: len(rewrites) > 0 ==> mark(0) && matched && (exists k int :: 0 <= k && k < len(entries) && hostMatches(entries[k], host) && typeMatches(entries[k], qtype))
 //@   ensures nonempty: (exists k int :: 0 <= k && k < len(entries) && hostMatches(entries[k], host) && typeMatches(entries[k], qtype)) ==> len(rewrites) > 0
 //@   ensures best-first: len(rewrites) > 0 ==> (forall k int :: {entries[k]} 0 <= k && k < len(entries) && hostMatches(entries[k], host) && typeMatches(entries[k], qtype) ==> !before(entries[k], rewrites[0]))
 //@   ensures exact-shadows-wildcard: len(rewrites) > 0 && !isWild(rewrites[0].Domain) ==> (forall i int :: {rewrites[i]} 0 <= i && i < len(rewrites) ==> !isWild(rewrites[i].Domain))
